@@ -20,6 +20,7 @@ package main
 import (
 	"context"
 	"encoding/json"
+	"errors"
 	"fmt"
 	"io"
 	"os"
@@ -75,7 +76,7 @@ func (cs *caseJ) key() string {
 }
 
 // The taint tags of Rewrite.tla, each a known (unrepaired) defect of the optimizer.
-var taintTags = []string{"lift-sort-reverse", "lift-sort-nulls", "lift-stateful-expr", "join-dir-nulls", "fork-sortkey", "stale-sortkey"}
+var taintTags = []string{"lift-sort-reverse", "lift-sort-nulls", "lift-stateful-expr", "join-dir-nulls", "fork-sortkey", "stale-sortkey", "join-lockstep"}
 
 // The rules of Rewrite.tla (non-vacuity: each must fire in some exported case).
 var ruleNames = []string{"merge-filters", "remove-pass", "lift-summarize", "lift-sort-new-merge", "lift-sort-under-merge",
@@ -108,7 +109,27 @@ type harness struct {
 	undetermined   int
 	checked        int
 	planChecked    int
+	lockstepRuns   int
+	lockstepSkips  int
 }
+
+func hasTaint(cs *caseJ, t string) bool {
+	for _, x := range cs.Taint {
+		if x == t {
+			return true
+		}
+	}
+	return false
+}
+
+func isTimeout(err error) bool {
+	return err != nil && (errors.Is(err, context.DeadlineExceeded) || strings.Contains(err.Error(), "deadline exceeded"))
+}
+
+const (
+	caseTimeout    = 15 * time.Second // tiny inputs: milliseconds when live
+	confirmTimeout = 60 * time.Second
+)
 
 func errStr(err error) string {
 	if err == nil {
@@ -169,8 +190,24 @@ func kindsOf(ops []string) string {
 func (h *harness) evalCase(cs *caseJ, batch int) {
 	c := h.c
 	prog, in := cs.program(), cs.inputZSON()
-	U := runProgram(h.ctx, prog, runOpts{NoOptimize: true, SortKey: cs.Sk}, in)
-	O := runProgram(h.ctx, prog, runOpts{SortKey: cs.Sk}, in)
+	oTimeout := caseTimeout
+	if hasTaint(cs, "join-lockstep") && batch == 1 && len(cs.Input) >= 3 {
+		// Known defect: the optimized plan can hang (fork and join wait for each
+		// other).  Reproduce it a few times per run, do not pay for every instance.
+		h.mu.Lock()
+		h.lockstepRuns++
+		n := h.lockstepRuns
+		h.mu.Unlock()
+		if n > 4 {
+			h.mu.Lock()
+			h.lockstepSkips++
+			h.mu.Unlock()
+			return
+		}
+		oTimeout = 4 * time.Second
+	}
+	U := runProgram(h.ctx, prog, runOpts{NoOptimize: true, SortKey: cs.Sk, Timeout: caseTimeout}, in)
+	O := runProgram(h.ctx, prog, runOpts{SortKey: cs.Sk, Timeout: oTimeout}, in)
 	nontrivial := U.Canon != O.Canon
 	c.Eval(fmt.Sprintf("%d|%s", batch, cs.key()), nontrivial)
 	h.mu.Lock()
@@ -185,10 +222,30 @@ func (h *harness) evalCase(cs *caseJ, batch int) {
 	h.mu.Unlock()
 	w := witness{Kind: "spec", Program: prog, Input: in, Sk: cs.Sk, Batch: batch, U: U.Rows, O: O.Rows,
 		UErr: errStr(U.Err), OErr: errStr(O.Err), PlanU: U.Canon, PlanO: O.Canon, Taint: cs.Taint}
+	if isTimeout(U.Err) {
+		c.Inconclusive("`%s` did not finish as analyzed within %s", prog, caseTimeout)
+		return
+	}
 	if U.Err != nil {
 		// every program of the algebra compiles and runs; otherwise the spec's rendering is off
 		c.Drift("spec program does not run as analyzed: %q: %v", prog, U.Err)
 		return
+	}
+	if isTimeout(O.Err) {
+		if hasTaint(cs, "join-lockstep") {
+			h.mu.Lock()
+			h.taintObserved["join-lockstep"]++
+			h.mu.Unlock()
+			c.Violate("taint:join-lockstep", fmt.Sprintf("`%s` (declared sort key %q, %d-value batches) terminates as analyzed but the optimized plan (join sorts skipped: %s) does not finish", prog, cs.Sk, batch, O.Canon), w)
+			return
+		}
+		// not a known hang: make sure it is not just a slow machine
+		O = runProgram(h.ctx, prog, runOpts{SortKey: cs.Sk, Timeout: confirmTimeout}, in)
+		if isTimeout(O.Err) {
+			c.Violate("optimized-plan-hangs:"+kindsOf(cs.Ops), fmt.Sprintf("`%s` (declared sort key %q, %d-value batches) terminates as analyzed but the optimized plan does not finish within %s: %s", prog, cs.Sk, batch, confirmTimeout, O.Canon), w)
+			return
+		}
+		w.O, w.OErr = O.Rows, errStr(O.Err)
 	}
 	if O.Err != nil {
 		c.Violate("optimized-plan-fails:"+kindsOf(cs.Ops), fmt.Sprintf("`%s` runs as analyzed but the optimized plan fails: %v", prog, O.Err), w)
@@ -407,7 +464,11 @@ func run(c *core.Ctx) error {
 			c.Inconclusive("vacuous: rule %q of Rewrite.tla never fired in any exported case", r)
 		}
 	}
+	c.Set("known_hang_instances_skipped", h.lockstepSkips)
 	for _, t := range taintTags {
+		if t == "join-lockstep" {
+			continue // a hang is not expressible in Sem; witnessed on the real code instead
+		}
 		if h.taintPredicted[t] == 0 {
 			c.Inconclusive("vacuous: taint %q is never needed (no exported case where the spec predicts non-equivalence under it)", t)
 		}
